@@ -72,7 +72,7 @@ def specs_for(prop, seed, n, tier):
     return specs
 
 
-SPEC_BUILDERS = {"C16": lambda seed, n, tier: _c16_specs(seed, n, tier)}
+SPEC_BUILDERS = {"C16": lambda seed, n, tier: _c16_specs(seed, n, tier), "C13": lambda seed, n, tier: _c13_specs(seed, n, tier)}
 
 
 # ---------------------------------------------------------------------------
@@ -103,6 +103,52 @@ PROFILES["C16"] = [
            p_nodelay_false=0.0, max_trials=14, p_tiny_space=1.0, p_allow_dup=1.0, p_early_removal=0.0, p_pte=0.3)),
 ]
 DRIVERS["C16"] = "c16"
+
+
+def _c13_specs(seed, n, tier):
+    """C13: random fault plans (all tiers) plus, in the thorough tier, a systematic single-failure sweep:
+    for sampled fault-free base scenarios, fail trial i when it is about to report level k, for all (i, k)."""
+    import copy
+    from dst import runner, zoo
+
+    specs = _generic_specs("C13", seed, n, tier)
+    if tier != "thorough":
+        return specs
+    nbase = 60
+    bases = []
+    for i in range(nbase):
+        prof = dict(PROFILES["C13"][0][1], p_fault_free=1.0, max_trials=8)
+        scen = zoo.gen_scenario("%s/C13/sweep/%d" % (seed, i), prof)
+        bases.append(scen)
+    rs = runner.run_batch([{"scenario": s} for s in bases], ["C13"], nproc=16, timeout=run_timeout("C13"), samples=0)
+    sweep = []
+    for scen, r in zip(bases, rs):
+        if r is None or r.get("harness_error") or r.get("build_error"):
+            continue
+        ntr = min(r.get("ntrials") or 0, 10)
+        max_t = scen["scheduler"]["max_t"]
+        for t in range(ntr):
+            for lvl in ["first"] + list(range(2, min(max_t, 9) + 1)):
+                for run in (None, 1):
+                    s2 = copy.deepcopy(scen)
+                    s2["faults"] = [{"kind": "crash", "trial": t, "run": run, "level": lvl}]
+                    s2["seed"] = scen["seed"]
+                    sweep.append({"scenario": s2, "root": "%s|fail t%d l%s r%s" % (scen["seed"], t, lvl, run)})
+    return sweep + specs
+
+
+def _generic_specs(prop, seed, n, tier):
+    plist = PROFILES[prop]
+    tot = sum(w for w, _ in plist)
+    specs = []
+    for i in range(n):
+        x = (i * 7919) % tot
+        for w, prof in plist:
+            if x < w:
+                break
+            x -= w
+        specs.append({"root": "%s/%s/%s/%d" % (seed, prop, tier, i), "profile": prof})
+    return specs
 
 
 def _c16_specs(seed, n, tier):
